@@ -280,7 +280,7 @@ def same_line(impl, model):
         return True
     if model.startswith('panic:') and impl == 'panic':
         return True
-    if model == 'err' and impl.startswith('err'):
+    if model == 'err' and impl.startswith('err') and impl != 'err:FileTooLarge':
         return True
     if model == 'hang' and impl in ('hang', 'crash'):
         return True
@@ -369,12 +369,42 @@ def probe_shrink(ctx):
     return outs
 
 
-def scen_cache(ctx, n_dom=None, n_wild=None):
-    ctx.rule = ('L_cache: real rabuf::BufFile (0.1.20, features of abyssiniandb) vs the extracted model Cache.v, line by line, on seeded '
+def gen_fault(r, nops, real_sizes):
+    """a sequence of the dom class with `limit L` ... `unlimit` stretches laid over it (L near a chunk boundary inside the file
+    span): writes, evictions, flushes, growing seeks and set_len calls are refused by the file-size limit in the middle of the
+    sequence; every stretch ends with `unlimit`, `flush`, `disk` (recovery: the flush must succeed, and both sides must show the
+    same file).  Only real rabuf vs the model (Cache_fault.v): after a refused call the sequence may leave the flat domain."""
+    base = gen_seq(r, nops, False, real_sizes)
+    out = []
+    cs = 16
+    left = 0
+    for l in base:
+        t = l.split()
+        if t[0] == 'open':
+            cs = int(t[2]) if t[1] in ('cap', 'permille') else (4096 if t[1] == 'auto' else ABY_CS)
+        if left == 0 and t[0] not in ('open', 'close', 'disk') and r.random() < 0.18:
+            span = (5 if real_sizes else 7) * cs
+            out.append('limit %d' % near(r, cs, span))
+            left = r.randrange(1, 7)
+        out.append(l)
+        if left > 0:
+            left -= 1
+            if left == 0 or t[0] in ('close',):
+                out += ['unlimit', 'flush', 'disk'] if t[0] != 'close' else ['unlimit']
+                left = 0
+    if left > 0:
+        out.append('unlimit')
+    return out
+
+
+def scen_cache(ctx, n_dom=None, n_wild=None, n_fault=0, probes=True):
+    rule = ('L_cache: real rabuf::BufFile (0.1.20, features of abyssiniandb) vs the extracted model Cache.v, line by line, on seeded '
                 'random call sequences (chunk sizes 1..64 and the real 4096/131072, 2..8 chunks or per-mille/auto, files of a few chunks, '
                 'accesses at chunk boundaries +-8, straddling writes, seeks past the end, set_len, flushes, mid-run checksums of the file '
                 'as the OS sees it, close/reopen under another configuration); sequences inside the flat domain are also compared with a '
-                'plain Python byte array (direct oracle); distinct = distinct sequences')
+                'plain Python byte array (direct oracle); class fault: the same under a file-size limit switched on and off in the middle (writes, evictions, flushes, growing seeks refused: real rabuf vs Cache_fault.v, incl. the state a refused call leaves and the recovery flush); distinct = distinct sequences')
+    if probes:
+        ctx.rule = rule
     n_dom = n_dom if n_dom is not None else ctx.scale(120, 1500)
     n_wild = n_wild if n_wild is not None else ctx.scale(60, 700)
 
@@ -382,17 +412,28 @@ def scen_cache(ctx, n_dom=None, n_wild=None):
         cls, i = a
         r = random.Random('%s/cache-%s/%d' % (ctx.seed, cls, i))
         real_sizes = (i % 5 == 4)
-        lines = gen_seq(r, 25 if real_sizes else r.choice([30, 60, 120]), cls == 'wild', real_sizes)
+        if cls == 'fault':
+            lines = gen_fault(r, 25 if real_sizes else r.choice([30, 60, 120]), real_sizes)
+        else:
+            lines = gen_seq(r, 25 if real_sizes else r.choice([30, 60, 120]), cls == 'wild', real_sizes)
         ok, il = check_seq(ctx, cls, i, lines, oracle=(cls == 'dom'))
+        if cls == 'fault':
+            d = ctx.distribution.setdefault('cache_fault_calls', {})
+            for l, o in zip(lines, il):
+                if o == 'err:FileTooLarge':
+                    k = l.split()[0]
+                    d[k] = d.get(k, 0) + 1
         last = il[-1] if il else ''
         return (cls, 'stopped:' + last.split(':')[0] if last in ('panic', 'hang', 'crash') or last.startswith('err') else 'completed')
-    jobs = [('dom', i) for i in range(n_dom)] + [('wild', i) for i in range(n_wild)]
+    jobs = [('dom', i) for i in range(n_dom)] + [('wild', i) for i in range(n_wild)] + [('fault', i) for i in range(n_fault)]
     from concurrent.futures import ThreadPoolExecutor
     with ThreadPoolExecutor(max_workers=8) as ex:
         res = list(ex.map(one, jobs))
     for cls, how in res:
         d = ctx.distribution.setdefault('cache_' + cls, {})
         d[how] = d.get(how, 0) + 1
+    if not probes:
+        return
     # known finding D8
     real, model = probe_d8(ctx)
     ctx.distribution['cache_d8_probe'] = {'real': real, 'model': model}
